@@ -3,7 +3,7 @@
 From WM Require Import Base.Prelude ReqReply.Listen ReqReply.ListenProofs ReqReply.Caller.
 
 Section P.
-  Context (dec : N -> option N).
+  Context (dec : notif -> option (N * option N)).
   Notation lstep := (lstep dec).
   Notation lrun := (lrun dec).
   Notation cstep := (cstep dec).
@@ -290,7 +290,7 @@ End P.
 
 (** ** N listeners sharing one reply topic *)
 Section Prod.
-  Context (dec : N -> option N).
+  Context (dec : notif -> option (N * option N)).
 
   Lemma nrun_component cs sched : forall ss i,
     nrun dec cs ss sched i = lrun dec (cs i) (ss i) (sched_of i sched).
